@@ -174,4 +174,34 @@ Proof.
   split; [apply json_encodes_b_sound; vm_compute; reflexivity|].
   repeat split; vm_compute; reflexivity.
 Qed.
+
+(* five labels; siblings that share the first 4, 3 and 2 labels meet in one innermost
+   label object, in an array of objects at the innermost level, and in a label array;
+   an identical label tuple is given as an array of two bodies *)
+Definition deep_S : stree :=
+  SNode [] [("foo", 5%nat)] (fun _ => SNode [("v", false)] [] (fun _ => SJust)).
+Definition deep_cfg : cfg :=
+  [CBlock "foo" ["a"; "b"; "c"; "d"; "e1"] [CAttr "v" (LLeaf 4002)];
+   CBlock "foo" ["a"; "b"; "c"; "d"; "e2"] [CAttr "v" (LLeaf 6002)];
+   CBlock "foo" ["a"; "b"; "c"; "x"; "e3"] [];
+   CBlock "foo" ["a"; "b"; "y"; "d"; "e1"] [];
+   CBlock "foo" ["a"; "b"; "y"; "d"; "e1"] []].
+Definition deep_json : jvalue :=
+  JObj [("foo", JObj [("a", JObj [("b",
+     JObj [("c", JObj [("d", JArr [JObj [("e1", JObj [("v", JLeaf 4002)])];
+                                   JObj [("e2", JObj [("v", JLeaf 6002)])]]);
+                       ("x", JObj [("e3", JObj [])])]);
+           ("y", JArr [JObj [("d", JObj [("e1", JArr [JObj []; JObj []])])]])])])])].
+
+Example C03_example_deep :
+  json_encodes deep_S deep_cfg deep_json /\
+  map (fun bl => blabels bl) (cblocks (fst (jcontent (level_schema deep_S) (jroot deep_json))))
+  = map (fun bl => blabels bl) (cblocks (fst (ncontent (level_schema deep_S) (native_of deep_cfg)))) /\
+  map (fun bl => blabels bl) (cblocks (fst (jcontent (level_schema deep_S) (jroot deep_json))))
+  = [["a"; "b"; "c"; "d"; "e1"]; ["a"; "b"; "c"; "d"; "e2"]; ["a"; "b"; "c"; "x"; "e3"];
+     ["a"; "b"; "y"; "d"; "e1"]; ["a"; "b"; "y"; "d"; "e1"]].
+Proof.
+  split; [apply json_encodes_b_sound; vm_compute; reflexivity|].
+  split; vm_compute; reflexivity.
+Qed.
 Close Scope string_scope.
